@@ -1,15 +1,20 @@
 package aftersun
 
 import (
+	"bytes"
 	"context"
 	"crypto/ecdsa"
+	"crypto/x509"
+	"encoding/json"
 	"errors"
 	"fmt"
 	"io"
 	"log/slog"
 	"math/rand"
 	"os"
+	"os/exec"
 	"path/filepath"
+	"runtime/debug"
 	"strings"
 	"sync"
 	"time"
@@ -307,7 +312,7 @@ func (s *SeqLog) DyingRound(k int, how string, rng *rand.Rand) error {
 // applies the staging bundle if the lock store is ahead), three new entries,
 // one sequencing round, all entries sequenced, and the checkpoint published
 // afterwards is the lock store's.
-func RestartCheck(id *Identity, dir, scratch string, lockBody []byte, tag string) (err error) {
+func restartCheck(id *Identity, dir, scratch string, lockBody []byte, tag string) (err error) {
 	defer func() {
 		if r := recover(); r != nil {
 			err = fmt.Errorf("panic: %v", r)
@@ -350,4 +355,66 @@ func RestartCheck(id *Identity, dir, scratch string, lockBody []byte, tag string
 		return fmt.Errorf("after the round the published checkpoint has size %d (signature ok: %v), expected %d", pub.N, pub.SigOK, before.N+3)
 	}
 	return nil
+}
+
+// restartSpec is what the child process of RestartCheck is given.
+type restartSpec struct {
+	Name    string
+	Key     []byte // SEC 1 / PKCS#8 private key
+	WSeed   []byte
+	Dir     string
+	Scratch string
+	Lock    []byte
+	Tag     string
+}
+
+// RestartCheck runs restartCheck in a process of its own (this test binary,
+// TestRestartChild): LoadLog leaks its SQLite connections on its error paths
+// and crawshaw.io/sqlite panics from a finalizer when such a connection is
+// collected, which must not take the harness down.
+func RestartCheck(id *Identity, dir, scratch string, lockBody []byte, tag string) error {
+	if err := os.MkdirAll(scratch, 0o755); err != nil {
+		return err
+	}
+	spec := restartSpec{id.Name, must(x509.MarshalPKCS8PrivateKey(id.Key)), id.WKey.Bytes(), dir, scratch, lockBody, tag}
+	sp := filepath.Join(scratch, "restart-"+tag+".json")
+	if err := os.WriteFile(sp, must(json.Marshal(spec)), 0o600); err != nil {
+		return err
+	}
+	ctx, cancel := context.WithTimeout(context.Background(), 15*time.Minute)
+	defer cancel()
+	cmd := exec.CommandContext(ctx, os.Args[0], "-test.run", "^TestRestartChild$", "-test.v", "-test.timeout", "14m")
+	cmd.Env = append(os.Environ(), "VERIF_RESTART_SPEC="+sp)
+	out, _ := cmd.CombinedOutput()
+	if ctx.Err() != nil {
+		panic("restart check timed out")
+	}
+	if bytes.Contains(out, []byte("RESTART-OK")) {
+		return nil
+	}
+	if i := bytes.Index(out, []byte("RESTART-FAIL: ")); i >= 0 {
+		msg := out[i+len("RESTART-FAIL: "):]
+		if j := bytes.IndexByte(msg, '\n'); j >= 0 {
+			msg = msg[:j]
+		}
+		return errors.New(string(msg))
+	}
+	if len(out) > 600 {
+		out = out[len(out)-600:]
+	}
+	return fmt.Errorf("restart child died: %s", out)
+}
+
+// RestartChildMain is the body of TestRestartChild.
+func RestartChildMain(specPath string) {
+	debug.SetGCPercent(-1)
+	var spec restartSpec
+	check(json.Unmarshal(must(os.ReadFile(specPath)), &spec))
+	k := must(x509.ParsePKCS8PrivateKey(spec.Key))
+	id := &Identity{spec.Name, k.(*ecdsa.PrivateKey), must(mldsa.NewPrivateKey(mldsa.MLDSA44(), spec.WSeed))}
+	if err := restartCheck(id, spec.Dir, spec.Scratch, spec.Lock, spec.Tag); err != nil {
+		fmt.Printf("RESTART-FAIL: %s\n", strings.ReplaceAll(err.Error(), "\n", " "))
+		return
+	}
+	fmt.Println("RESTART-OK")
 }
